@@ -9,3 +9,96 @@ package multi
 // it is treated as a pure, non-panicking function of the asset list (interface contract of multi.Asset).
 //@ func IsMultiLedgerAssets
 //@   trusted
+
+// ---------------------------------------------------------------------------
+// Multi-ledger dispatch (C20), sequential core. A ledger is identified by the pair (backend id, ledger map key) of its
+// LedgerBackendID; third-party implementations of these interfaces are pure observers (interface contracts).
+// ---------------------------------------------------------------------------
+
+//@ ghost func lbBackend(l LedgerBackendID) uint32
+//@ ghost func lbLedger(l LedgerBackendID) LedgerID
+//@ ghost func lidKey(l LedgerID) LedgerIDMapKey
+//@ ghost func assetLB(a Asset) LedgerBackendID
+//@ interface LedgerBackendID
+//@   method BackendID
+//@     requires recv != nil
+//@     ensures result == lbBackend(recv)
+//@   method LedgerID
+//@     requires recv != nil
+//@     ensures result == lbLedger(recv) && result != nil
+//@ end
+//@ interface LedgerID
+//@   method MapKey
+//@     requires recv != nil
+//@     ensures result == lidKey(recv)
+//@ end
+//@ interface Asset
+//@   method LedgerBackendID
+//@     requires recv != nil
+//@     ensures result == assetLB(recv) && result != nil
+//@ end
+
+// sameLedger(x, y): the two identifiers denote the same ledger.
+//@ pred sameLedger(x LedgerBackendID, y LedgerBackendID) = lbBackend(x) == lbBackend(y) && lidKey(lbLedger(x)) == lidKey(lbLedger(y))
+
+// The forwarding closure of the adjudicator dispatch: the call goes to the adjudicator registered for exactly this ledger;
+// if none is registered the result is an error.
+//@ func (*Adjudicator).dispatch$1$1
+//@   requires *a != nil && *l != nil && *f != nil && (*a).adjudicators != nil
+//@   modifies *
+//@   ensures !has((*a).adjudicators, key(lbBackend(*l), lidKey(lbLedger(*l)))) ==> result != nil
+//@   callsite fn:f : has((*a).adjudicators, key(lbBackend(*l), lidKey(lbLedger(*l)))) && arg0 == (*a).adjudicators[key(lbBackend(*l), lidKey(lbLedger(*l)))]
+
+// The per-ledger calls forward exactly the request of the multi-ledger call.
+//@ func (*Adjudicator).Register$1
+//@   requires la != nil
+//@   modifies *
+//@   callsite channel.Adjudicator.Register : recv == la && arg0 == *ctx && arg1.Params == (*req).Params && arg1.Idx == (*req).Idx && arg1.Secondary == (*req).Secondary && arg1.Tx.State == (*req).Tx.State && arg1.Tx.Sigs == (*req).Tx.Sigs && arg2 == *subStates
+//@ func (*Adjudicator).Withdraw$1
+//@   requires la != nil
+//@   modifies *
+//@   callsite channel.Adjudicator.Withdraw : recv == la && arg0 == *ctx && arg1.Params == (*req).Params && arg1.Idx == (*req).Idx && arg1.Secondary == (*req).Secondary && arg1.Tx.State == (*req).Tx.State && arg1.Tx.Sigs == (*req).Tx.Sigs && arg2 == *subStates
+
+// Funding: each per-ledger goroutine looks up the funder of exactly its ledger, reports an error if there is none and
+// otherwise forwards the unchanged request to that funder.
+//@ func fundLedgers$1
+//@   requires assetID != nil && *funders != nil && forall b uint32, s string :: has(*funders, key(b, s)) ==> (*funders)[key(b, s)] != nil
+//@   modifies *
+//@   callsite channel.Funder.Fund : has(*funders, key(lbBackend(assetID), lidKey(lbLedger(assetID)))) && recv == (*funders)[key(lbBackend(assetID), lidKey(lbLedger(assetID)))] &&
+//@     arg0 == *ctx && arg1.Params == (*request).Params && arg1.State == (*request).State && arg1.Idx == (*request).Idx && arg1.Agreement == (*request).Agreement
+
+// LedgerIDs: one identifier per distinct ledger, in first-occurrence order: every returned identifier is the ledger of some
+// asset, no two returned identifiers denote the same ledger, and the ledger of every asset is among them.
+//@ func (assets).LedgerIDs
+//@   requires forall i int :: 0 <= i && i < len(a) ==> a[i] != nil
+//@   ensures result1 == nil ==> (forall i int :: 0 <= i && i < len(result0) ==> result0[i] != nil && exists j int :: 0 <= j && j < len(a) && sameLedger(result0[i], assetLB(a[j]))) &&
+//@           (forall i, k int :: 0 <= i && i < k && k < len(result0) ==> !sameLedger(result0[i], result0[k])) &&
+//@           (forall j int :: 0 <= j && j < len(a) ==> exists i int :: 0 <= i && i < len(result0) && sameLedger(result0[i], assetLB(a[j])))
+//@   loop 1
+//@     modifies fresh
+//@     invariant seen != nil && fresh(seen) && (ids != nil ==> fresh(arr(ids))) && forall i int :: 0 <= i && i < len(ids) ==> ids[i] != nil && has(seen, key(lbBackend(ids[i]), lidKey(lbLedger(ids[i])))) && exists j int :: 0 <= j && j < $i && sameLedger(ids[i], assetLB(a[j]))
+//@     invariant forall i, k int :: 0 <= i && i < k && k < len(ids) ==> !sameLedger(ids[i], ids[k])
+//@     invariant forall b uint32, s string :: has(seen, key(b, s)) ==> exists i int :: 0 <= i && i < len(ids) && lbBackend(ids[i]) == b && lidKey(lbLedger(ids[i])) == s
+//@     invariant forall j int :: 0 <= j && j < $i ==> exists i int :: 0 <= i && i < len(ids) && sameLedger(ids[i], assetLB(a[j]))
+
+// Fund: the distinct ledgers are split into the egoistic one (position egoisticIndex, if egoistic funding is on) and all others;
+// the others are funded first and the egoistic one only after that call returned without error.
+// fundedOK(ids): the concurrent funding of these ledgers reported no error (result of fundLedgers; its fork-join body - one
+// goroutine per ledger, one result per goroutine collected from a channel - is verified only in its per-ledger closure).
+//@ ghost func fundedOK(ids []LedgerBackendID) bool
+//@ func fundLedgers
+//@   trusted
+//@   ensures result == nil <==> fundedOK(assetIDs)
+//@ func (*Funder).Fund
+//@   requires f != nil && ctx != nil && request.Params != nil && request.State != nil && forall i int :: 0 <= i && i < len(request.State.Assets) ==> request.State.Assets[i] != nil
+//@   modifies *
+//@   callsite fundLedgers : funders == f.funders && (assetIDs == nonEgoisticLedgers || (assetIDs == egoisticLedgers && fundedOK(nonEgoisticLedgers)))
+//@   ensures result == nil ==> exists e []LedgerBackendID, n []LedgerBackendID :: fundedOK(e) && fundedOK(n)
+//@   loop 1
+//@     modifies fresh
+//@     invariant (egoisticLedgers != nil ==> fresh(arr(egoisticLedgers))) && (nonEgoisticLedgers != nil ==> fresh(arr(nonEgoisticLedgers))) &&
+//@       (egoisticLedgers != nil && nonEgoisticLedgers != nil ==> arr(egoisticLedgers) != arr(nonEgoisticLedgers)) &&
+//@       (ledgerIDs != nil ==> arr(egoisticLedgers) != arr(ledgerIDs) && arr(nonEgoisticLedgers) != arr(ledgerIDs))
+//@     invariant len(egoisticLedgers) + len(nonEgoisticLedgers) == $i && len(egoisticLedgers) <= 1 &&
+//@       (len(egoisticLedgers) == 1 ==> f.egoistic && f.egoisticIndex < $i && egoisticLedgers[0] == ledgerIDs[f.egoisticIndex]) &&
+//@       (f.egoistic && 0 <= f.egoisticIndex && f.egoisticIndex < $i ==> len(egoisticLedgers) == 1)
